@@ -413,16 +413,38 @@ func preCheck(o frameOpts, stream []byte, entry string) error {
 // errStall is returned by the harness's read loops.
 var errStall = errors.New("harness: reader returns (0, nil) without touching the transport")
 
-// drain reads r to its end with the given buffer size and reports a reader
-// that keeps returning (0, nil) while the transport is not read.
-func drain(r io.Reader, src *tx.Src, bufSize int, limit int64) (int64, error) {
+// errContract marks a Read that broke 0 <= n <= len(p).
+type errContract struct{ msg string }
+
+func (e *errContract) Error() string { return e.msg }
+
+// drain reads r to its end the way io.ReadAll walks its buffer: each Read
+// gets the unfilled rest of a bufSize window (so the lengths handed to Read
+// vary), and every call is held to the io.Reader contract 0 <= n <= len(p).
+// It also reports a reader that keeps returning (0, nil) while the transport
+// is not read. The first contract violation is kept in *viol as well, because
+// some callers sit behind library code that swallows the returned error.
+func drain(r io.Reader, src *tx.Src, bufSize int, limit int64, viol *error) (int64, error) {
 	buf := make([]byte, bufSize)
+	fill := 0
 	var total int64
 	stall := 0
 	for {
 		reads := src.Reads
-		n, err := r.Read(buf)
+		p := buf[fill:]
+		n, err := r.Read(p)
+		if n < 0 || n > len(p) {
+			e := &errContract{fmt.Sprintf("Read(p) with len(p)=%d returned n=%d (err=%v) after %d bytes: the io.Reader contract 0 <= n <= len(p) is broken; a caller like io.ReadAll slices its buffer by n and panics", len(p), n, err, total)}
+			if viol != nil && *viol == nil {
+				*viol = e
+			}
+			return total, e
+		}
 		total += int64(n)
+		fill += n
+		if fill == len(buf) {
+			fill = 0
+		}
 		if err != nil {
 			return total, err
 		}
@@ -440,9 +462,9 @@ func drain(r io.Reader, src *tx.Src, bufSize int, limit int64) (int64, error) {
 	}
 }
 
-func drainOnly(src *tx.Src, bufSize int) wsutil.FrameHandlerFunc {
+func drainOnly(src *tx.Src, bufSize int, viol *error) wsutil.FrameHandlerFunc {
 	return func(h ws.Header, r io.Reader) error {
-		_, err := drain(r, src, bufSize, 0)
+		_, err := drain(r, src, bufSize, 0, viol)
 		if err == io.EOF {
 			return nil
 		}
@@ -457,11 +479,12 @@ func runReader(o frameOpts, src *tx.Src, rec *capRec) (deep bool, err error) {
 	if o.ext {
 		rd.Extensions = []wsutil.RecvExtension{&ms}
 	}
+	var viol error // first io.Reader contract violation seen by a harness read loop
 	handler := wsutil.ControlFrameHandler(rec, o.state)
 	if o.skip {
 		// ControlHandler requires checked headers; with SkipHeaderCheck the
 		// payload of control frames is only read out.
-		handler = drainOnly(src, o.bufSize)
+		handler = drainOnly(src, o.bufSize, &viol)
 	}
 	rd.OnIntermediate = handler
 	var fr *wsflate.Reader
@@ -496,7 +519,7 @@ func runReader(o frameOpts, src *tx.Src, rec *capRec) (deep bool, err error) {
 			r = fr
 			fallthrough
 		default:
-			_, e = drain(r, src, o.bufSize, maxOut)
+			_, e = drain(r, src, o.bufSize, maxOut, &viol)
 			if e == nil {
 				// output bound reached: stop here, a decompression bomb is not in the statement
 				hx.Class("frames/Reader/output-bound")
@@ -505,6 +528,9 @@ func runReader(o frameOpts, src *tx.Src, rec *capRec) (deep bool, err error) {
 			if e == io.EOF {
 				e = nil
 			}
+		}
+		if viol != nil {
+			return true, fmt.Errorf("message reader: %v", viol)
 		}
 		if e == errStall {
 			return true, fmt.Errorf("Reader.Read returned (0, nil) more than 64 times in a row without reading the transport (position %d of %d): a caller like io.ReadAll would spin forever", src.Pos, len(src.Data))
@@ -517,6 +543,9 @@ func runReader(o frameOpts, src *tx.Src, rec *capRec) (deep bool, err error) {
 		}
 	}
 	deep = frames > 0
+	if viol != nil {
+		return true, fmt.Errorf("message reader: %v", viol)
+	}
 	if o.max > 0 {
 		for _, w := range walk(src.Data) {
 			if w.h.Length > o.max {
@@ -1022,7 +1051,10 @@ func runOptions(entry int, k byte, value []byte) (deep bool, err error) {
 
 const defCtl = 2
 
-var defEntries = []string{"Helper.DecompressFrame(counted)", "wsflate.Reader", "wsflate.Reader(ByteReader)", "DecompressFrame"}
+var defEntries = []string{"Helper.DecompressFrame(counted)", "wsflate.Reader", "wsflate.Reader(ByteReader)", "DecompressFrame", "wsflate.Reader(reused)"}
+
+// partSep separates the compressed payloads of the reused-reader entry.
+var partSep = []byte{0xde, 0xad, 0xbe, 0xef}
 
 // boundedBuf is a wsflate.Buffer that stops accepting after maxOut bytes.
 type boundedBuf struct {
@@ -1056,7 +1088,7 @@ func targetDeflate(data []byte) error {
 	var out int64
 	err := guard(defEntries[entry], func() error {
 		var e error
-		out, e = runDeflate(entry, rsv1, reuse, eofData, chunks, payload)
+		out, e = runDeflate(entry, rsv1, reuse, eofData, data[1], payload)
 		return e
 	})
 	note("deflate", defEntries[entry], out > 0, data)
@@ -1066,7 +1098,8 @@ func targetDeflate(data []byte) error {
 	return nil
 }
 
-func runDeflate(entry int, rsv1, reuse, eofData bool, chunks []int, payload []byte) (out int64, err error) {
+func runDeflate(entry int, rsv1, reuse, eofData bool, planByte byte, payload []byte) (out int64, err error) {
+	chunks := chunkPlan(planByte)
 	frame := func() ws.Frame {
 		f := ws.NewFrame(ws.OpBinary, true, append([]byte(nil), payload...))
 		if rsv1 {
@@ -1111,10 +1144,12 @@ func runDeflate(entry int, rsv1, reuse, eofData bool, chunks []int, payload []by
 			in = tx.ByteSrc{Src: src}
 		}
 		r := wsflate.NewReader(in, ctor)
-		n, e := drain(r, src, 4096, maxOut)
+		n, e := drain(r, src, 4096, maxOut, nil)
 		out = n
+		if _, bad := e.(*errContract); bad {
+			return out, fmt.Errorf("wsflate.Reader: %v", e)
+		}
 		if e == errStall {
-			// compress/flate may legitimately return (0, nil)? It does not; report.
 			return out, fmt.Errorf("wsflate.Reader.Read returned (0, nil) more than 64 times in a row without reading its source")
 		}
 		_ = r.Close()
@@ -1131,8 +1166,11 @@ func runDeflate(entry int, rsv1, reuse, eofData bool, chunks []int, payload []by
 				in2 = tx.ByteSrc{Src: src2}
 			}
 			r.Reset(in2)
-			n2, e2 := drain(r, src2, 512, maxOut)
+			n2, e2 := drain(r, src2, 512, maxOut, nil)
 			out += n2
+			if _, bad := e2.(*errContract); bad {
+				return out, fmt.Errorf("wsflate.Reader after Reset: %v", e2)
+			}
 			if e2 == errStall {
 				return out, fmt.Errorf("wsflate.Reader.Read after Reset returned (0, nil) more than 64 times in a row without reading its source")
 			}
@@ -1140,6 +1178,73 @@ func runDeflate(entry int, rsv1, reuse, eofData bool, chunks []int, payload []by
 				return out, e
 			}
 			return out, srcOracle("wsflate.Reader after Reset", src2, nil)
+		}
+		return out, nil
+
+	case 4:
+		// One wsflate.Reader reused over up to three payloads (the input is
+		// split at partSep), with the kind of source (io.ByteReader or not)
+		// and the amount read (to the end / one small read / nothing) varying
+		// from part to part, as a connection handler that pools its reader
+		// and meets corrupt or abandoned messages does.
+		parts := bytes.SplitN(payload, partSep, 3)
+		plan := planByte // the chunk byte is the per-part plan here
+		if rsv1 {
+			plan ^= 0x55
+		}
+		if eofData {
+			plan ^= 0xa6
+		}
+		var r *wsflate.Reader
+		for i, part := range parts {
+			src := tx.NewSrc(part, nil)
+			var in io.Reader
+			switch (int(plan>>(2*uint(i))) + i) % 3 {
+			case 0:
+				in = bytes.NewReader(part) // io.ByteReader, reads never reach src
+			case 1:
+				in = src
+			default:
+				in = tx.ByteSrc{Src: src}
+			}
+			if r == nil {
+				r = wsflate.NewReader(in, ctor)
+			} else {
+				r.Reset(in)
+			}
+			what := fmt.Sprintf("reused wsflate.Reader, payload %d of %d", i+1, len(parts))
+			amount := (int(plan>>6) + 2*i + int(plan&1)) % 3
+			if reuse && i == len(parts)-1 {
+				amount = 0
+			}
+			switch amount {
+			case 0: // to the end
+				n, e := drain(r, src, 1024, maxOut, nil)
+				out += n
+				if _, bad := e.(*errContract); bad {
+					return out, fmt.Errorf("%s: %v", what, e)
+				}
+				if e == errStall && in != io.Reader(src) {
+					e = nil // src is not what this reader reads from; the counters below judge termination
+				}
+				if e == errStall {
+					return out, fmt.Errorf("%s: Read returned (0, nil) more than 64 times in a row without reading its source", what)
+				}
+			case 1: // one small read, then the message is abandoned
+				var small [16]byte
+				n, _ := r.Read(small[:])
+				if n < 0 || n > len(small) {
+					return out, fmt.Errorf("%s: Read(p) with len(p)=16 returned n=%d", what, n)
+				}
+				out += int64(n)
+			default: // nothing read
+			}
+			if e := runaway(what); e != nil {
+				return out, e
+			}
+			if e := srcOracle(what, src, nil); e != nil {
+				return out, e
+			}
 		}
 		return out, nil
 
